@@ -280,7 +280,10 @@ CHECKS['C10'] = dict(
                   'thorough': {'ms_channels_equal': 2000000}},
 )
 
-C17_WRAPS = ['ec_decode_bin', 'ec_dec_update', 'ec_encode_bin', 'ec_laplace_decode', 'ec_enc_icdf', 'ec_dec_icdf', 'ec_enc_icdf16', 'ec_dec_icdf16']
+C17_WRAPS = ['ec_decode_bin', 'ec_dec_update', 'ec_encode_bin', 'ec_laplace_decode', 'ec_enc_icdf', 'ec_dec_icdf', 'ec_enc_icdf16', 'ec_dec_icdf16',
+             'quant_coarse_energy', 'unquant_coarse_energy', 'quant_fine_energy', 'unquant_fine_energy', 'quant_energy_finalise', 'unquant_energy_finalise',
+             'clt_compute_allocation', 'quant_all_bands', 'encode_pulses', 'decode_pulses', 'silk_encode_indices', 'silk_decode_indices',
+             'silk_encode_pulses', 'silk_decode_pulses', 'silk_stereo_encode_pred', 'silk_stereo_decode_pred', 'silk_stereo_encode_mid_only', 'silk_stereo_decode_mid_only']
 CHECKS['C17'] = dict(
     level='exploration',
     rule="pvq: one case per pulse-cache row of the static mode (LM -1..3 x 21 bands = every N the codec can use incl. split halves): for "
@@ -303,6 +306,8 @@ CHECKS['C17'] = dict(
         dict(h='h_c17.c', mode='icdf', flavour='asan', n=1, shards=1, wraps=C17_WRAPS),
         dict(h='h_c17.c', mode='pvq', flavour='asan-fixed', n=105, wraps=C17_WRAPS, args={'quick': ['vmax=20000', 'samples=500'], 'thorough': ['vmax=1000000', 'samples=20000']}),
         dict(h='h_c17.c', mode='laplace', flavour='asan-fixed', n=200, wraps=C17_WRAPS),
+        dict(h='h_c17.c', mode='symlock', flavour='asan', n={'quick': 1600, 'thorough': 40000}, wraps=C17_WRAPS),
+        dict(h='h_c17.c', mode='symlock', flavour='asan-fixed', n={'quick': 800, 'thorough': 20000}, wraps=C17_WRAPS),
     ],
     min_nontrivial={'quick': 300, 'thorough': 300},
     min_counters={'quick': {'pvq_NK_pairs': 600, 'pvq_pairs_exhaustive': 300, 'laplace_points_checked': 300 * 32768, 'icdf_live_tables_distinct': 60, 'icdf_static_tables_checked': 30, 'cache_entries_checked': 1000},
